@@ -158,7 +158,10 @@ std::optional<sqf::runtime::fileio::pathinfo> sqf::fileio::impl_default::get_inf
 {
     log(logmessage::fileio::ResolvePhysicalRequested(current.physical, current.virtual_, viewVirtual));
 
-    std::filesystem::path toFindPath(viewVirtual);
+    // both separators are accepted in requests, `\` is no separator for std::filesystem::path everywhere
+    auto requested = std::string(viewVirtual);
+    std::replace(requested.begin(), requested.end(), '\\', '/');
+    std::filesystem::path toFindPath(requested);
     toFindPath = toFindPath.lexically_normal();
     if (toFindPath.is_relative() || (viewVirtual.size() > 3 && (viewVirtual.substr(0, 3) == "../"sv || viewVirtual.substr(0, 3) == "..\\"sv)))
     {
@@ -186,10 +189,14 @@ std::optional<sqf::runtime::fileio::pathinfo> sqf::fileio::impl_default::get_inf
             if (rootEnd == phys.end() && !std::equal(phys.begin(), phys.end(), toFindPath.begin(), toFindPath.end()))
             {
                 log(logmessage::fileio::ResolvePhysicalMatched(current.physical, current.virtual_, phys.string()));
-                toFindPath = it->virtual_full + "/" + toFindPath.string().substr(phys.string().size() + 1);
-                toFindPath = toFindPath.lexically_normal();
-                auto toFindString = toFindPath.string();
+                std::filesystem::path toFindVirtual = it->virtual_full + "/" + toFindPath.string().substr(phys.string().size() + 1);
+                toFindVirtual = toFindVirtual.lexically_normal();
+                auto toFindString = toFindVirtual.string();
                 std::replace(toFindString.begin(), toFindString.end(), '\\', '/');
+                if (file_exists(toFindPath))
+                { // the file next to the current one is the one that was asked for, whatever else is mapped to its virtual path
+                    return { { toFindPath.string(), toFindString } };
+                }
                 auto res = get_info_virtual(toFindString, current);
                 if (res.has_value())
                 {
